@@ -377,6 +377,11 @@ func (fr *Frame) pureCall(st *State, fn *ssa.Function, full string, args []Val) 
 				Bound: []Bound{{"c1!ax", cs}, {"o1!ax", SInt}, {"l1!ax", SInt}, {"c2!ax", cs}, {"o2!ax", SInt}, {"l2!ax", SInt}},
 				Args:  []*Term{Implies(eq, Eq(l1, l2))}})
 		}
+		if ex.ghost == 0 && (full == "strings.Index" || full == "strings.LastIndex") && len(ts) == 2 && s == SInt {
+			// the position of a substring: -1, or a position at which the substring fits
+			ex.trusted["strings.Index/LastIndex: the result is -1 or a position at which the substring fits into the string"] = true
+			ex.assume(st, Or(Eq(v, IntLit(-1)), And(Le(IntLit(0), v), Le(Add(v, App("str_len", SInt, ts[1])), App("str_len", SInt, ts[0])))))
+		}
 		if ex.ghost == 0 {
 			ex.assume(st, ex.typeFacts(v, t))
 			if (fn.Name() == "Len" || fn.Name() == "Cap" || fn.Name() == "Size") && s == SInt && fn.Signature.Recv() != nil {
